@@ -54,3 +54,80 @@ class ToShortH(Harness):
 HARNESSES = [framed(NegateH), framed(AssumeH), framed(VariableAssumeH), framed(VariableEvaluateH), framed(ReduceH),
              framed(FlagsH), framed(AllH), framed(AnyH), framed(XorH), framed(XNorH), framed(ImplyH), framed(NotH),
              framed(AtMostH), framed(AtLeastKH), ToShortH()]
+
+
+# ------------------------------------------------------------------------------------------------------------------
+# process-wide caches: key soundness (DESIGN 3.5: input-free obligation kind `cache-key`)
+# ------------------------------------------------------------------------------------------------------------------
+import ast
+from pyvc.engine import FrameViolation
+from pyvc.sym import Unsupported
+
+
+class CacheKeyH(Harness):
+    """Every function of the repository that is wrapped in functools.lru_cache / functools.cache is keyed by its
+    arguments' (__hash__, __eq__).  For methods the key contains `self`.  Obligation per cached method of a proposition
+    class:  a == b and hash(a) == hash(b)  =>  a and b have the same definition  -- decided by executing the real
+    __eq__/__hash__ of AtLeast on two symbolic nodes (see the lemma harness KeyCollisionLemma).  On this code base the
+    implication does NOT hold (__eq__ compares id, value and equation bounds only; Bounds hash to a sum), so every such
+    cache is reported; there is none on the unchanged tree."""
+    name = "cache-key"
+    function = "AtLeast.__eq__"
+    functions = ["AtLeast.__eq__", "AtLeast.__hash__", ("puan", "variable.__hash__"), ("puan", "Bounds.__hash__")]
+
+    def setup(self, c, case):
+        repo = c.repo
+        for m in ("puan.ndarray", "puan.modules.configurator"):
+            repo.load(m)
+        return {}
+
+    def run(self, c, st):
+        found = []
+        for mname, (path, src) in c.repo.sources.items():
+            if mname == "maz":
+                continue
+            tree = ast.parse(src)
+            for cls in [n for n in ast.walk(tree) if isinstance(n, ast.ClassDef)] + [tree]:
+                for fn in [n for n in getattr(cls, "body", []) if isinstance(n, ast.FunctionDef)]:
+                    for dec in fn.decorator_list:
+                        txt = ast.unparse(dec)
+                        if "lru_cache" in txt or txt.endswith("functools.cache") or txt == "cache":
+                            found.append((mname, getattr(cls, "name", "<module>"), fn.name, fn.lineno, txt))
+        return found
+
+    def ensures(self, c, st, res):
+        out = [("cache-key.scan", True)]
+        for mname, cls, fn, line, txt in res:
+            out.append((f"cache-key[{mname}:{cls}.{fn}]",
+                        FrameViolation(f"{txt} at {mname}:{line}: the key is the receiver's (__hash__, __eq__), which identify "
+                                       f"differently defined propositions (lemma key_collision: refuted)")))
+        return out
+
+
+class KeyCollisionLemma(Harness):
+    """must be REFUTED on this code base: equal under AtLeast.__eq__ and equal hash => same leaf bounds"""
+    name = "canary.key_collision"
+    function = "AtLeast.__eq__"
+
+    def setup(self, c, case):
+        from .c10 import sym_compound
+        c.symbolic_ids = True
+        a, b = sym_compound(c, "a", 1, 2), sym_compound(c, "b", 1, 2)
+        return {"a": a, "b": b}
+
+    def run(self, c, st):
+        from pyvc.shim import hash_
+        a, b = st["a"], st["b"]
+        return {"eq": a == b, "heq": hash_(a) == hash_(b)}
+
+    def ensures(self, c, st, res):
+        a, b = st["a"], st["b"]
+        same_ids = band(*[x.id == y.id for x, y in zip(a.propositions, b.propositions)])
+        same_leaves = band(*[band(x.bounds.lower == y.bounds.lower, x.bounds.upper == y.bounds.upper)
+                             for x, y in zip(a.propositions, b.propositions)])
+        return [("must-fail", implies(band(res["eq"], res["heq"], same_ids), same_leaves))]
+
+
+from pyvc.nodes import band, implies
+HARNESSES.append(CacheKeyH())
+CANARIES = [KeyCollisionLemma()]
